@@ -34,7 +34,7 @@ ASSUMPTIONS = [
     "failpoints are placed only in callee frames below as_dict/as_obj: no real exception can arise between the plain assignments at the top of these two functions",
     "the slots are read through their name-mangled class attributes",
 ]
-MUST_SEE = ["raised_with_options", "failpoints_fired", "failpoint_nested", "default_after_fault", "bomb_positions", "corrupt_payloads", "option_subsets", "mappings_walked", "explorer_children_checked", "index_sources_checked", "deser_with_options", "repo_tests_slot_checks"]
+MUST_SEE = ["raised_with_options", "failpoints_fired", "failpoint_nested", "default_after_fault", "bomb_positions", "corrupt_payloads", "option_subsets", "mappings_walked", "explorer_children_checked", "index_sources_checked", "deser_with_options", "repo_tests_slot_checks", "shared_options_object"]
 CONFIG = {
     "quick": {"shards": 16, "trees": 16, "subsets": 14, "failpoint_trees": 1, "watchdog_s": 600},
     "thorough": {"shards": 32, "trees": 40, "subsets": 48, "failpoint_trees": 4, "watchdog_s": 3400},
@@ -275,6 +275,19 @@ def run_shard(ctx):
                 continue
             after_call(call, False)
             walk(root, out, opts, "root", call)
+            if how == "as_dict" and opts:
+                # one options object handed to two consecutive calls: it is the caller's, and both calls honour it
+                shared = dict(opts)
+                o1 = root.as_dict(mashumaro_dialect=md, serialization_options=shared)
+                kept = shared == opts
+                o2 = root.as_dict(mashumaro_dialect=md, serialization_options=shared)
+                ctx.evaluations += 1
+                ctx.count("shared_options_object")
+                if not kept or shared != opts:
+                    bad("caller-options-modified", "a serialization call modified the caller's options mapping", **call)
+                elif json.dumps(o1, default=str) != json.dumps(o2, default=str) or json.dumps(o1, default=str) != json.dumps(out, default=str):
+                    bad("options-not-applied-on-reuse", "the second call with the same options object produced another output", **call)
+                after_call(call, False)
             # deserialization with options set (payload from a default / index-source serialization)
             dopts = {k: v for k, v in opts.items() if k == SOURCE_OPTIMIZED_SERIALIZATION_KEY}
             payload = root.as_dict(serialization_options=dict(dopts) or None)
